@@ -15,7 +15,9 @@ func ShouldIncludeNode(directives []*Directive) (bool, error) {
 	skipDirective := findDirectiveWithName(directives, SKIP)
 	if skipDirective != nil {
 		b, err := parseIf(skipDirective)
-		return !b, err
+		if err != nil || b {
+			return false, err
+		}
 	}
 
 	includeDirective := findDirectiveWithName(directives, INCLUDE)
